@@ -341,7 +341,7 @@ pub fn run(ctx: &mut Ctx) {
     }
     let mut case = 0u64;
     // ---- 1. stored coordinate sweep (decode -> encode): six slots per header
-    let stride: u64 = ctx.n(4099, 1);
+    let stride: u64 = ctx.n(37, 1);
     let total: u64 = (1u64 << 32).div_ceil(stride); // number of stored values visited
     let per_block: u64 = 6 * 4096;
     let nblocks = total.div_ceil(per_block);
